@@ -168,7 +168,7 @@ fn gen(rng: &mut Rng, _i: u64) -> String {
 	spec.dirs = dirs;
 	let fill = if rng.chance(1, 12) { 0 } else { rng.range(1, 1000) as u32 };
 	let len = len.max(spec.hdr_end()).max(spec.soh as usize);
-	let img = Image { len, fill, hdr: spec.header_bytes(), pokes };
+	let img = Image { len, fill, hdr: scrambled_header(&spec, rng), pokes };
 
 	// ---- queries
 	let mut qs: Vec<String> = Vec::new();
